@@ -1,5 +1,5 @@
 # replay of a bounded stand-in violation: re-run native/c01_backends.py
 import sys
-print("Coherent() | q[0] of 2 after Del | q[0] (indices shifted by one) on fock: raised ValueError: axes don't match array")
+print("Sgate(0.3, 0.8) | q[0] of 2 on bosonic: ('quad', 0, 0.0) = [0.4938, 0.5634], the documented action gives [0.049, 0.5634]")
 print('REPLAY-VIOLATION')
 sys.exit(1)
